@@ -165,6 +165,13 @@ TS_PLAIN = [
     "{i}const val_{n} = work_{n}(work_{n}(a, {lit}));",
     "{i}const val_{n} = items.filter((x) => x > {lit});",
     "{i}const val_{n} = -{lit};",
+    "{i}switch (a) {{ case {lit}: work_{n}(a); }}",
+    "{i}const val_{n} = `${{a * {lit}}} of many`;",
+    "{i}const val_{n} = a ?? {lit};",
+    "{i}const val_{n} = [...items, {lit}];",
+    "{i}for (let i_{n} = a; i_{n} < {lit}; i_{n}++) {{ work_{n}(i_{n}); }}",
+    "{i}const val_{n} = class {{ field_{n} = {lit}; }};",
+    "{i}const val_{n} = function (x = {lit}) {{ return x; }};",
 ]
 
 
@@ -241,7 +248,8 @@ def gen_ts(rng, n_items=25, js=False, forms=True):
             b.add(rng.choice([
                 "%sconst flag_%d = true;" % (ind, k), "%sconst flag_%d = false;" % (ind, k), "%sconst name_%d = \"v2 build 37\";" % (ind, k),
                 "%sconst x%d = a;" % (ind, k), "%sconst nothing_%d = null;" % (ind, k), "%s// note %d: 42 in a comment" % (ind, k),
-                "%sconst text_%d = `${a} of 100`;" % (ind, k)]), cat="decoy")
+                "%sconst text_%d = `${a} of 100`;" % (ind, k), "%sconst re_%d = /a{37}b/;" % (ind, k),
+                "%slabel4997_%d: for (const it of items) { if (it) break label4997_%d; }" % (ind, k, k)]), cat="decoy")
     t, v = ts_literal(rng, used, forms)
     b.add("%sreturn %s;" % (ind, t), v, t, "plain")
     b.add("}")
@@ -258,6 +266,14 @@ RS_PLAIN = [
     "{i}let val_{n} = work_{n}(work_{n}(a, {lit}));",
     "{i}let val_{n} = items.iter().filter(|x| **x > {lit}).count();",
     "{i}let val_{n} = -{lit};",
+    "{i}let val_{n} = match a {{ {lit} => a, _ => a }};",
+    "{i}for i_{n} in a..{lit} {{ work_{n}(i_{n}); }}",
+    "{i}let val_{n} = vec![a; {lit}];",
+    "{i}println!(\"{{}} {{}}\", {lit}, a);",
+    "{i}let val_{n} = Holder_{n} {{ field: {lit} }};",
+    "{i}let val_{n} = {lit} as f64;",
+    "{i}if let Some({lit}) = Some(a) {{ work_{n}(a); }}",
+    "{i}let val_{n} = a.pow({lit});",
 ]
 
 
@@ -324,7 +340,8 @@ def gen_rs(rng, n_items=25, forms=True):
             b.add("%s);" % ind)
         else:
             b.add(rng.choice([
-                "%slet flag_%d = true;" % (ind, k), "%slet name_%d = \"v2 build 37\";" % (ind, k),
+                "%slet flag_%d = true;" % (ind, k), "%slet name_%d = \"v2 build 37\";" % (ind, k), "%slet raw_%d = r#\"raw 4998\"#;" % (ind, k),
+                "%slet ch_%d = '7';" % (ind, k), "%slet by_%d = b'9';" % (ind, k), "%slet life_%d: &'static str = \"x86\";" % (ind, k),
                 "%slet x%d = a;" % (ind, k), "%s// note %d: 42 in a comment" % (ind, k)]), cat="decoy")
     t, v = rs_literal(rng, used, False)
     b.add("%s%s" % (ind, t), v, t, "plain")
